@@ -61,6 +61,7 @@ GRouteStart == /\ pick = "route"
                /\ pick' = "routing" /\ UNCHANGED <<target, psize, emitted>>
 GInside == /\ pick = "routing"
            /\ \/ \E a, b \in 0..w - 1 : \E record \in BOOLEAN : a < b /\ RouteSwap(a, b, record)
+              \/ \E x, y \in 0..w - 1 : x < y /\ RoutePerm(x, y)
               \/ ExecGate
               \/ Backtrack
            /\ UNCHANGED gvars
